@@ -18,6 +18,7 @@ GENMODS = {
                "gen_Atom_bonding_capacity_eq_raw", "gen_get_bonding_capacity_error"],
     "GenEq4": ["translator_no_fallback_read_index", "gen_read_index_from_selfies_eq"],
     "GenEq5": ["translator_no_fallback_encoding", "gen_encoding_to_selfies_eq"],
+    "GenEq6": ["gen_selfies_to_encoding_eq"],
 }
 
 STATIC = {
@@ -46,7 +47,7 @@ STATIC = {
                                                          "cross-process determinism: observation only"]},
     "C12": {"not_proved": ["full privacy of the returned alphabet is FALSE on the unchanged tree (finding F7); C12_refines_value_map_partial excludes histories that mutate a returned alphabet"]},
     "C13": {}, "C14": {"use_props": ["C14e"]},
-    "C15": {"gen": ["GenEq5"]}, "C16": {"gen": ["GenEq", "GenEq2", "GenEq4"]},
+    "C15": {"gen": ["GenEq5", "GenEq6"]}, "C16": {"gen": ["GenEq", "GenEq2", "GenEq4"]},
     "C17": {"use_props": ["C17x"],
             "not_proved": ["with compatible=True the reported token is the MODERNISED symbol, not the input symbol (C17_input_index_compat; negation example in Props/C17.lean, replayed on the real code)",
                            "C17_atom_attribution_exact / C17_made_once (Props/C17x.lean) state 'exactly the enclosing branch symbols' and 'exactly once' with Encloses defined on an attribution-free walk of the derivation (tied to Spec.derive by C17_walk_is_spec_derive); not proved: that the sym of a span enclosing NO atom is a branch symbol by Spec.classify (for spans on some atom's stack C17_atom_attribution_partial gives it)"]},
